@@ -70,10 +70,9 @@ def build(tier, seed):
                     if prob == "osc":
                         trace_scs.append(A)
                     jobs.append(("reset", A, B))
-    # Richardson wrappers of splitting methods change their own step (doubling/halving inside the wrapper): forward spans only - on a
-    # backward step the wrapper's halving loop does not terminate (observation, DESIGN.md section 8)
+    # Richardson wrappers of splitting methods change their own step (doubling/halving inside the wrapper), in either direction
     for base_m in ["ABAS5O6H"] + (["BABS9O7H"] if thorough else []):
-        for (a, b, d0) in ((0.0, 4.0, 0.001), (-5.0, -3.0, 0.002)):
+        for (a, b, d0) in ((0.0, 4.0, 0.001), (-5.0, -3.0, 0.002), (4.0, 0.0, 0.001)):
             A = gen.base({"rich": base_m, "levels": 2}, a, b, d0, rtol=1e-6, atol=1e-6, dense=False)
             A["ops"] = [{"op": "integrate", "t": a + (b - a) * 0.625}, {"op": "integrate"}, {"op": "reset"}, {"op": "integrate", "t": a + (b - a) * 0.625}, {"op": "integrate"}]
             B = dict(A)
